@@ -3,6 +3,7 @@ package c07
 
 import (
 	"fmt"
+	"sort"
 	"strings"
 	"testing"
 
@@ -33,11 +34,18 @@ type Op struct {
 	Put   bool
 	Key   uint64
 	Shape int
+	// Same: store the very same set of values as the bitmap most recently
+	// stored under this key, in the other container layout (run-compressed <->
+	// plain); without an earlier Put of the key it is an ordinary Put.
+	Same bool
 }
 
 type Case struct {
 	Cap uint64
 	Ops []Op
+	// NoCounter: bit set = that counter (1 hit, 2 miss, 4 get, 8 put) is not
+	// configured; the configured ones must still count exactly their events.
+	NoCounter uint8
 	// Fast: residency after each step is probed on ONE replica for all keys
 	// (a Get must not change residency, which is checked anyway) instead of one
 	// replica per key; used for long histories over many keys.
@@ -46,13 +54,15 @@ type Case struct {
 
 func (c *Case) Summary() string {
 	var b strings.Builder
-	fmt.Fprintf(&b, "cap=%d ops[%d]:", c.Cap, len(c.Ops))
+	fmt.Fprintf(&b, "cap=%d counters-off=%04b ops[%d]:", c.Cap, c.NoCounter, len(c.Ops))
 	for i, o := range c.Ops {
 		if i >= 40 {
 			b.WriteString(" …")
 			break
 		}
-		if o.Put {
+		if o.Put && o.Same {
+			fmt.Fprintf(&b, " Put(%d,same values other layout)", o.Key)
+		} else if o.Put {
 			fmt.Fprintf(&b, " Put(%d,%s)", o.Key, shapeName[o.Shape])
 		} else {
 			fmt.Fprintf(&b, " Get(%d)", o.Key)
@@ -111,10 +121,35 @@ const slack = 256 // "fits comfortably": per-entry allowance for bookkeeping ove
 // step outcome of running a prefix on a fresh cache
 type counters struct{ hit, miss, get, put fix.Counter }
 
-func newCache(capacity uint64, cn *counters) *updog.LRUCache {
-	return updog.NewLRUCache(capacity, updog.WithCacheMetrics(&updog.CacheMetrics{
-		CacheHit: &cn.hit, CacheMiss: &cn.miss, GetCall: &cn.get, PutCall: &cn.put,
-	}))
+func newCache(capacity uint64, cn *counters) *updog.LRUCache { return newCacheMasked(capacity, cn, 0) }
+
+func newCacheMasked(capacity uint64, cn *counters, off uint8) *updog.LRUCache {
+	m := &updog.CacheMetrics{}
+	if off&1 == 0 {
+		m.CacheHit = &cn.hit
+	}
+	if off&2 == 0 {
+		m.CacheMiss = &cn.miss
+	}
+	if off&4 == 0 {
+		m.GetCall = &cn.get
+	}
+	if off&8 == 0 {
+		m.PutCall = &cn.put
+	}
+	return updog.NewLRUCache(capacity, updog.WithCacheMetrics(m))
+}
+
+// relayout returns a bitmap holding the same values in the other layout.
+func relayout(b *roaring.Bitmap) *roaring.Bitmap {
+	if b.HasRunCompression() {
+		out := roaring.New()
+		out.AddMany(b.ToArray())
+		return out
+	}
+	out := b.Clone()
+	out.RunOptimize()
+	return out
 }
 
 // apply runs ops[0:n] on a fresh cache; bitmaps are rebuilt from (shape,
@@ -136,6 +171,7 @@ type facts struct {
 	evictions   int
 	hitAfterEv  bool
 	sizeChanged bool
+	sameRelaid  bool // overwrite with equal values whose layout has another size
 	hits        int
 }
 
@@ -152,7 +188,7 @@ func oracle(c *Case) (facts, error) {
 func oracle1(c *Case) (facts, error) {
 	var f facts
 	var cn counters
-	cache := newCache(c.Cap, &cn)
+	cache := newCacheMasked(c.Cap, &cn, c.NoCounter)
 	keys := []uint64{}
 	seenKey := map[uint64]bool{}
 	for _, o := range c.Ops {
@@ -167,9 +203,15 @@ func oracle1(c *Case) (facts, error) {
 	// one bitmap per Put, built once; the caches only store references and the
 	// harness never mutates them, so replicas can share them
 	bms := make([]*roaring.Bitmap, len(c.Ops))
+	prevPut := map[uint64]int{}
 	for i, o := range c.Ops {
 		if o.Put {
-			bms[i] = mk(o.Shape, i)
+			if p, ok := prevPut[o.Key]; ok && o.Same {
+				bms[i] = relayout(bms[p])
+			} else {
+				bms[i] = mk(o.Shape, i)
+			}
+			prevPut[o.Key] = i
 		}
 	}
 	var wantGet, wantPut, wantHit, wantMiss int64
@@ -178,8 +220,11 @@ func oracle1(c *Case) (facts, error) {
 	for i, o := range c.Ops {
 		if o.Put {
 			bm := bms[i]
-			if old, ok := lastPut[o.Key]; ok && resident[o.Key] && c.Ops[old].Shape != o.Shape {
+			if old, ok := lastPut[o.Key]; ok && resident[o.Key] && bms[old].GetSizeInBytes() != bm.GetSizeInBytes() {
 				f.sizeChanged = true
+				if o.Same {
+					f.sameRelaid = true
+				}
 			}
 			cache.Put(o.Key, bm)
 			wantPut++
@@ -296,9 +341,22 @@ func oracle1(c *Case) (facts, error) {
 			}
 		}
 		resident = now
-		if cn.get.N.Load() != wantGet || cn.put.N.Load() != wantPut || cn.hit.N.Load() != wantHit || cn.miss.N.Load() != wantMiss {
-			return f, fmt.Errorf("after step %d: counters get/put/hit/miss = %d/%d/%d/%d, events were %d/%d/%d/%d", i,
-				cn.get.N.Load(), cn.put.N.Load(), cn.hit.N.Load(), cn.miss.N.Load(), wantGet, wantPut, wantHit, wantMiss)
+		eg, ep, eh, em := wantGet, wantPut, wantHit, wantMiss
+		if c.NoCounter&1 != 0 {
+			eh = 0
+		}
+		if c.NoCounter&2 != 0 {
+			em = 0
+		}
+		if c.NoCounter&4 != 0 {
+			eg = 0
+		}
+		if c.NoCounter&8 != 0 {
+			ep = 0
+		}
+		if cn.get.N.Load() != eg || cn.put.N.Load() != ep || cn.hit.N.Load() != eh || cn.miss.N.Load() != em {
+			return f, fmt.Errorf("after step %d: configured counters get/put/hit/miss = %d/%d/%d/%d, events were %d/%d/%d/%d (not configured: mask %04b, expected to stay 0)", i,
+				cn.get.N.Load(), cn.put.N.Load(), cn.hit.N.Load(), cn.miss.N.Load(), wantGet, wantPut, wantHit, wantMiss, c.NoCounter)
 		}
 	}
 	return f, nil
@@ -313,6 +371,12 @@ func run(t interface{ Fatalf(string, ...any) }, c *Case, sub string) {
 	}
 	if f.sizeChanged {
 		cl = append(cl, "overwrite-changed-size")
+	}
+	if f.sameRelaid {
+		cl = append(cl, "overwrite-same-values-other-layout")
+	}
+	if c.NoCounter != 0 {
+		cl = append(cl, "some-counters-not-configured")
 	}
 	if f.hits > 0 {
 		cl = append(cl, "had-hit")
@@ -379,6 +443,9 @@ func drawCase(t *rapid.T) *Case {
 	if rapid.IntRange(0, 3).Draw(t, "capmode") == 0 {
 		c.Cap = uint64(rapid.IntRange(0, 100000).Draw(t, "capn"))
 	}
+	if rapid.IntRange(0, 3).Draw(t, "counters") == 0 {
+		c.NoCounter = uint8(rapid.IntRange(1, 15).Draw(t, "nocounter"))
+	}
 	nkeys := rapid.IntRange(1, 12).Draw(t, "nkeys")
 	n := rapid.IntRange(1, 80).Draw(t, "nops")
 	for i := 0; i < n; i++ {
@@ -387,6 +454,17 @@ func drawCase(t *rapid.T) *Case {
 		case 0, 1, 2, 3:
 			o.Put = true
 			o.Shape = rapid.IntRange(0, nShapes-1).Draw(t, "shape")
+		case 5:
+			// overwrite a previously stored key with the same values in the
+			// other layout (run-friendly shapes change their size a lot)
+			if rapid.IntRange(0, 2).Draw(t, "same?") == 0 {
+				for j := len(c.Ops) - 1; j >= 0; j-- {
+					if c.Ops[j].Put && (c.Ops[j].Shape == ShRuns || c.Ops[j].Shape == ShManyRuns || rapid.IntRange(0, 3).Draw(t, "anyshape") == 0) {
+						o = Op{Put: true, Key: c.Ops[j].Key, Shape: c.Ops[j].Shape, Same: true}
+						break
+					}
+				}
+			}
 		case 4:
 			// overwrite a previously stored key with a different shape
 			o.Put = true
@@ -426,6 +504,127 @@ func drawMarathon(t *rapid.T, maxOps int) *Case {
 			o.Shape = ShBitmap
 		}
 		c.Ops = append(c.Ops, o)
+	}
+	return c
+}
+
+// ---------------------------------------------------------------- caller edits a stored bitmap, which is then evicted
+
+// MutCase: the caller changes a bitmap after it was stored (the cache holds a
+// reference), other entries push it out, and from then on only untouched
+// bitmaps are stored.  While an edited bitmap is retrievable the byte bound
+// cannot be expected to hold; once none is, every clause holds again: the
+// accounting must not keep a surplus or a deficit from the edited entry.
+type MutCase struct {
+	Cap    uint64
+	First  int   // shape of the entry that is edited
+	Edit   int   // 0 clear, 1 keep every 16th value, 2 double, 3 add 8 scattered chunks
+	Pre    []int // shapes stored before it
+	Pushes []int // shapes stored afterwards
+}
+
+func (c *MutCase) Summary() string {
+	return fmt.Sprintf("edit-then-evict: cap=%d pre=%v Put(1,%s) caller-edit=%d pushes=%v", c.Cap, c.Pre, shapeName[c.First], c.Edit, c.Pushes)
+}
+
+func mutOracle(c *MutCase) (evicted bool, err error) {
+	err = fix.Safe(func() error {
+		cache := updog.NewLRUCache(c.Cap)
+		stored := map[uint64]*roaring.Bitmap{}
+		for i, sh := range c.Pre {
+			b := mk(sh, 1000+i)
+			cache.Put(uint64(100+i), b)
+			stored[uint64(100+i)] = b
+		}
+		victim := mk(c.First, 1)
+		cache.Put(1, victim)
+		switch c.Edit {
+		case 0:
+			victim.Clear()
+		case 1:
+			for i, v := range victim.ToArray() {
+				if i%16 != 0 {
+					victim.Remove(v)
+				}
+			}
+		case 2:
+			for _, v := range victim.ToArray() {
+				victim.Add(v ^ 0x00800001)
+			}
+		default:
+			for ch := uint32(100); ch < 108; ch++ {
+				for i := uint32(0); i < 9000; i += 2 {
+					victim.Add(ch<<16 + i)
+				}
+			}
+		}
+		for i, sh := range c.Pushes {
+			k := uint64(200 + i)
+			b := mk(sh, 2000+i)
+			cache.Put(k, b)
+			stored[k] = b
+			// what is retrievable now (the edited entry is looked at last, so
+			// that probing does not keep it alive longer than the others)
+			var total uint64
+			order := make([]uint64, 0, len(stored))
+			for kk := range stored {
+				order = append(order, kk)
+			}
+			sort.Slice(order, func(a, b int) bool { return order[a] < order[b] })
+			for _, kk := range order {
+				want := stored[kk]
+				if got, ok := cache.Get(kk); ok {
+					if !got.Equals(want) {
+						return fmt.Errorf("after push %d: key %d returns a bitmap other than the one stored under it", i, kk)
+					}
+					total += got.GetSizeInBytes()
+				}
+			}
+			if _, ok := cache.Get(1); ok {
+				continue // the edited bitmap is still in: no claim about bytes
+			}
+			evicted = true
+			if total > c.Cap {
+				return fmt.Errorf("after push %d (the edited entry is gone): untouched retrievable bitmaps sum to %d bytes > capacity %d", i, total, c.Cap)
+			}
+			if b.GetSizeInBytes()+slack <= c.Cap {
+				if _, ok := cache.Get(k); !ok {
+					return fmt.Errorf("after push %d (the edited entry is gone): entry of %d bytes fits capacity %d but is not retrievable right after it was stored", i, b.GetSizeInBytes(), c.Cap)
+				}
+			}
+		}
+		return nil
+	})
+	return evicted, err
+}
+
+func runMut(t interface{ Fatalf(string, ...any) }, c *MutCase) {
+	ev, err := mutOracle(c)
+	cl := []string{"edit:" + []string{"clear", "thin-out", "double", "new-chunks"}[c.Edit]}
+	if ev {
+		cl = append(cl, "edited-entry-evicted")
+	}
+	evid.Case(ev, c.Summary(), cl...)
+	if err != nil {
+		fix.Fail(t, prop, "edit", c, c.Summary(), err)
+	}
+}
+
+func drawMut(t *rapid.T) *MutCase {
+	c := &MutCase{Cap: rapid.SampledFrom([]uint64{9000, 20000, 20000, 40000, 70000, 300000}).Draw(t, "cap")}
+	big := []int{ShBitmap, ShBitmap, ShLarge, ShRuns, ShManyRuns, ShMulti}
+	anyShape := rapid.IntRange(0, nShapes-1)
+	c.First = rapid.SampledFrom(big).Draw(t, "first")
+	c.Edit = rapid.IntRange(0, 3).Draw(t, "edit")
+	for i, n := 0, rapid.IntRange(0, 3).Draw(t, "npre"); i < n; i++ {
+		c.Pre = append(c.Pre, anyShape.Draw(t, "pre"))
+	}
+	for i, n := 0, rapid.IntRange(2, 14).Draw(t, "npush"); i < n; i++ {
+		if rapid.Bool().Draw(t, "bigpush") {
+			c.Pushes = append(c.Pushes, ShBitmap)
+		} else {
+			c.Pushes = append(c.Pushes, anyShape.Draw(t, "push"))
+		}
 	}
 	return c
 }
@@ -534,6 +733,14 @@ func runRePut(t interface{ Fatalf(string, ...any) }, c *RePutCase) {
 }
 
 func replay(cf *evid.CaseFile) error {
+	if cf.Sub == "edit" {
+		var c MutCase
+		if err := evid.Decode(cf.Gob, &c); err != nil {
+			return err
+		}
+		_, err := mutOracle(&c)
+		return err
+	}
 	if cf.Sub == "reput" {
 		var c RePutCase
 		if err := evid.Decode(cf.Gob, &c); err != nil {
@@ -556,6 +763,7 @@ func TestQuick(t *testing.T) {
 	}
 	fix.Check(t, "random", 3000, func(rt *rapid.T) { run(rt, drawCase(rt), "random") })
 	fix.Check(t, "reput", 300, func(rt *rapid.T) { runRePut(rt, drawRePut(rt)) })
+	fix.Check(t, "edit", 400, func(rt *rapid.T) { runMut(rt, drawMut(rt)) })
 	fix.Check(t, "marathon", 6, func(rt *rapid.T) { run(rt, drawMarathon(rt, 1200), "marathon") })
 }
 
@@ -568,6 +776,7 @@ func TestThorough(t *testing.T) {
 	}
 	fix.Check(t, "random", 100000, func(rt *rapid.T) { run(rt, drawCase(rt), "random") })
 	fix.Check(t, "reput", 3000, func(rt *rapid.T) { runRePut(rt, drawRePut(rt)) })
+	fix.Check(t, "edit", 6000, func(rt *rapid.T) { runMut(rt, drawMut(rt)) })
 	fix.Check(t, "marathon", 12, func(rt *rapid.T) { run(rt, drawMarathon(rt, 2500), "marathon") })
 }
 
